@@ -155,10 +155,23 @@ func (e *SpecEnv) lookupIdent(name string) (Val, bool) {
 			return e.results[i], true
 		}
 	}
+	if strings.HasSuffix(name, "@0") {
+		// callee-side binding of a parameter (contract applied at a call site / in a lemma)
+		if v, ok := e.vars[strings.TrimSuffix(name, "@0")]; ok {
+			return v, true
+		}
+	}
 	if at := strings.Index(name, "@"); at > 0 && e.fr != nil {
 		// name@N: the loop-carried variable `name` of loop N
 		var n int
 		fmt.Sscanf(name[at+1:], "%d", &n)
+		if n == 0 {
+			// name@0: the parameter's value at function entry
+			if v, ok := e.fr.params[name[:at]]; ok {
+				return v, true
+			}
+			return Val{}, false
+		}
 		for _, li := range e.fr.loopList {
 			if li.ord == n {
 				if pv, ok := li.phiNames[name[:at]]; ok {
@@ -188,9 +201,6 @@ func (e *SpecEnv) lookupIdent(name string) (Val, bool) {
 				return e.fr.vals[pv], true
 			}
 		}
-		if v, ok := e.fr.params[name]; ok {
-			return v, true
-		}
 		// free variables of closures denote the captured cells (pointers): *i is the value
 		for _, fv := range e.fr.fn.FreeVars {
 			if fv.Name() == name {
@@ -198,6 +208,9 @@ func (e *SpecEnv) lookupIdent(name string) (Val, bool) {
 			}
 		}
 		if v, ok := e.fr.lookupDebug(name, e.st); ok {
+			return v, true
+		}
+		if v, ok := e.fr.params[name]; ok {
 			return v, true
 		}
 		// SSA register names as an escape hatch
@@ -333,6 +346,8 @@ func (e *SpecEnv) intToFloat(v Val) Val {
 		}
 	}
 	switch c.mode {
+	case ModeXReal:
+		return Val{T: "(xfin (to_real " + v.T + "))", Ty: tF}
 	case ModeReal:
 		return Val{T: "(to_real " + v.T + ")", Ty: tF}
 	case ModeFP:
@@ -428,7 +443,20 @@ func (e *SpecEnv) tr(x Expr) Val {
 		if _, isIface := t.Underlying().(*types.Interface); isIface {
 			return Val{T: v.T, Ty: t}
 		}
-		return Val{T: c.unbox(t, "(ival "+v.T+")"), Ty: t}
+		ub := c.unbox(t, "(ival "+v.T+")")
+		if e.heapParams == nil && e.st != nil && !strings.Contains(v.T, "q_") && !strings.Contains(v.T, "a_") && !strings.Contains(v.T, "l_") {
+			// the payload of an interface value is a well-formed, allocated value of its dynamic type
+			bound := e.st.alloc
+			if c.oldRooted(v.T, 0) {
+				bound = "alloc0"
+			}
+			key := "ifacewf|" + v.T + "|" + c.typeTag(t)
+			if w := c.wfTerm(ub, t, bound, 0); w != "true" && !c.declared[key] {
+				c.declared[key] = true
+				c.assume(implies(fmt.Sprintf("(= (itag %s) %s)", v.T, c.typeTag(t)), w))
+			}
+		}
+		return Val{T: ub, Ty: t}
 	case *EQuant:
 		ne := *e
 		ne.vars = map[string]Val{}
@@ -772,6 +800,17 @@ func (e *SpecEnv) trCall(x *ECall) Val {
 		return Val{T: c.fisNaN(e.tr(x.Args[0]).T), Ty: tBool}
 	case "isInf":
 		return Val{T: c.fisInf(e.tr(x.Args[0]).T, "0"), Ty: tBool}
+	case "isFin":
+		v := e.tr(x.Args[0])
+		switch c.mode {
+		case ModeXReal:
+			return Val{T: "((_ is xfin) " + v.T + ")", Ty: tBool}
+		case ModeFP:
+			return Val{T: "(not (or (fp.isNaN " + v.T + ") (fp.isInfinite " + v.T + ")))", Ty: tBool}
+		case ModeReal:
+			return Val{T: "true", Ty: tBool}
+		}
+		return Val{T: c.ufun("m_isfin", "Bool", []string{"F"}, v.T), Ty: tBool}
 	case "posInf":
 		return Val{T: c.floatLit(posInf), Ty: tF}
 	case "negInf":
@@ -999,12 +1038,17 @@ func (e *SpecEnv) trNamedCall(name string, args []Expr) Val {
 			refArgs = append(refArgs, a)
 		}
 	}
+	var curHeaps []string
 	for _, k := range si.heaps {
 		h := e.heapForSpec(k, si, refArgs)
 		if e.heapParams == nil {
 			c.wantSliceWF(k, h)
 		}
 		ts = append(ts, h)
+		curHeaps = append(curHeaps, h)
+	}
+	if si.rec && e.heapParams == nil && e.fr != nil {
+		e.specFrameAxiom(sf, si, curHeaps)
 	}
 	if si.rec {
 		fuel := "(FS (FS FZ))"
@@ -1267,4 +1311,69 @@ func replaceIdent(s, id, repl string) string {
 		}
 		i = j + len(id)
 	}
+}
+
+// specFrameAxiom: a recursive spec function applied to pre-existing data has
+// the same value in the current heaps as in the entry heaps, provided the
+// function's frame holds at this point (obligation "frame") — the function
+// reads only cells reachable from its arguments, all of which existed at
+// entry and are unchanged. Emitted once per (function, heap tuple).
+func (e *SpecEnv) specFrameAxiom(sf *SpecFunc, si *specInst, cur []string) {
+	c := e.c
+	fr := e.fr
+	var entry []string
+	differs := false
+	for i, k := range si.heaps {
+		en := c.heap(fr.entry, k)
+		entry = append(entry, en)
+		if en != cur[i] {
+			differs = true
+			for _, m := range fr.modObjs {
+				if m.sortKey == k {
+					return
+				}
+			}
+		}
+	}
+	if !differs {
+		return
+	}
+	key := "specframe|" + si.name + "|" + strings.Join(cur, ",")
+	if fr.frameDone[key] {
+		return
+	}
+	fr.frameDone[key] = true
+	var binders, names, guard []string
+	for i, p := range sf.Params {
+		t := si.params[i]
+		n := "a_" + p.Name
+		binders = append(binders, fmt.Sprintf("(%s %s)", n, c.sortOf(t)))
+		names = append(names, n)
+		switch t.Underlying().(type) {
+		case *types.Slice:
+			guard = append(guard, fmt.Sprintf("(< (sobj %s) alloc0)", n))
+		case *types.Pointer:
+			guard = append(guard, fmt.Sprintf("(< (pobj %s) alloc0)", n))
+		default:
+			if isRefType(t) {
+				return // interfaces/maps: no shallow guard available
+			}
+		}
+	}
+	for i, k := range si.heaps {
+		if entry[i] == cur[i] {
+			continue
+		}
+		fk := "framept|" + k + "|" + cur[i]
+		if !fr.frameDone[fk] {
+			fr.frameDone[fk] = true
+			ft := frameFormula(k, cur[i], entry[i], "0", "alloc0", nil, strings.HasPrefix(k, "map!"))
+			fr.oblige("frame", sanitize(k), nil, ft, "pre-existing objects of sort "+k+" are unchanged at this point (lets specs about the inputs be read in the entry heap)", 0)
+		}
+	}
+	lhs := "(" + si.name + " fu " + strings.Join(append(append([]string{}, names...), cur...), " ") + ")"
+	rhs := "(" + si.name + " fu " + strings.Join(append(append([]string{}, names...), entry...), " ") + ")"
+	c.declOnce("fuel", "(declare-datatypes ((Fuel 0)) (((FZ) (FS (fpred Fuel)))))")
+	fr.assumeR(fmt.Sprintf("(forall ((fu Fuel) %s) (! (=> %s (= %s %s)) :pattern (%s)))", strings.Join(binders, " "), and(guard...), lhs, rhs, lhs))
+	c.assumed["meta: recursive spec functions read only cells reachable from their arguments (frame axiom for "+sf.Name+")"] = true
 }
